@@ -796,3 +796,22 @@ func verif_TCPMuxProxy_httpConnectRun(pxy *TCPMuxProxy) {
 		verif.Ensures(n >= 1 && verif.NthArg[string](ev, n-1, 1) == host && verif.NthArg[string](ev, n-1, 2) == ru && verif.NthArg[string](ev, n-1, 3) == hu && verif.NthArg[string](ev, n-1, 4) == hp, "subdomain_route_carries_the_routing_user_and_the_connect_credentials")
 	}
 }
+
+// XTCPProxy.Close (C10): closing the proxy closes its listeners, withdraws its
+// NAT-hole registration under its own name and ends the goroutine that forwards
+// session ids to the client (its stop channel is closed) - once, however often
+// Close is called.
+//
+//verif:contract (*~/server/proxy.XTCPProxy).Close
+//verif:props C10
+//verif:kinds post,pre
+func verif_XTCPProxy_Close(pxy *XTCPProxy) {
+	verif.Requires(pxy.closeCh != nil && pxy.BaseProxy != nil, "constructed_by_NewProxy")
+	name := pxy.name
+	verif.ResetEvents()
+	pxy.Close()
+	if verif.Called("BaseProxy).Close") {
+		verif.Ensures(verif.Closed(pxy.closeCh), "forwarding_goroutine_is_told_to_stop")
+		verif.Ensures(verif.CalledWith("nathole.Controller).CloseClient", 1, name), "nat_hole_registration_withdrawn_under_its_own_name")
+	}
+}
